@@ -90,14 +90,50 @@ class Obj:
         return 'O%s' % self.tag
 
 
+class EqObj(Obj):
+    """Identity-keyed graphs must not compare or hash the nodes: every
+    EqObj equals every other one and they all hash alike."""
+    __slots__ = ()
+
+    def __eq__(self, other):
+        return True
+
+    def __ne__(self, other):
+        return False
+
+    def __hash__(self):
+        return 7
+
+
+class HostileObj(Obj):
+    """== and hash() raise (gc.garbage may hold anything)."""
+    __slots__ = ()
+
+    def __eq__(self, other):
+        raise RuntimeError('node compared')
+
+    def __hash__(self):
+        raise RuntimeError('node hashed')
+
+
+ID_MODES = {
+    'id': Obj,
+    'ideq': EqObj,                      # all equal, same hash
+    'idlist': lambda l: [0],            # unhashable, all equal (real
+                                        # garbage is mostly dicts / lists)
+    'idhostile': HostileObj,
+}
+
+
 def check_graph(DiGraph, labels, edges, order, mode, stats, viol, desc,
                 skip_sink_call=False, unknown=None):
     """Build the graph through the public API and compare sccs()."""
     n = len(labels)
-    if mode == 'id':
-        objs = [Obj(l) for l in labels]
+    if mode in ID_MODES:
+        objs = [ID_MODES[mode](l) for l in labels]
         g = DiGraph([objs[i] for i in order])
         key = id
+        stats['id_' + mode] = stats.get('id_' + mode, 0) + 1
     else:
         objs = list(labels)
         g = DiGraph([objs[i] for i in order], make_hashable=None)
@@ -107,8 +143,8 @@ def check_graph(DiGraph, labels, edges, order, mode, stats, viol, desc,
     adj = {i: [] for i in range(n)}
     for a, b in edges:
         adj[a].append(b)
-    extra = [Obj('unknown')] if (unknown and mode == 'id') else \
-        (['<unknown>'] if unknown else [])
+    extra = [ID_MODES[mode]('unknown')] if (unknown and mode in ID_MODES) \
+        else (['<unknown>'] if unknown else [])
     for i in order:
         if skip_sink_call and not adj[i]:
             continue
@@ -174,9 +210,16 @@ def run_case(case):
                     continue
                 stats['graphs'] += 1
                 for mode, lab in (('id', 'int'), ('plain', 'int'),
-                                  ('plain', 'bigint'), ('plain', 'str')):
+                                  ('plain', 'bigint'), ('plain', 'str'),
+                                  ('ideq', 'int'), ('idlist', 'int'),
+                                  ('idhostile', 'int')):
                     if mode == 'plain' and lab != 'int' and \
                             (mask + oi) % 3 != 0:
+                        continue
+                    if mode in ('idlist', 'idhostile') and \
+                            (mask + oi) % 4 != 0:
+                        continue
+                    if mode == 'ideq' and (mask + oi) % 2 != 0:
                         continue
                     desc = {'n': n, 'mask': mask, 'order': list(order),
                             'mode': mode, 'labels': lab}
@@ -204,7 +247,7 @@ def run_case(case):
                      if rng.random() < dens]
             order = list(range(n))
             rng.shuffle(order)
-            mode = rng.choice(['id', 'plain'])
+            mode = rng.choice(['id', 'plain', 'ideq', 'idlist', 'idhostile'])
             stats['graphs'] += 1
             desc = {'n': n, 'edges': edges if n < 12 else len(edges),
                     'order': order if n < 12 else None, 'mode': mode,
